@@ -33,6 +33,15 @@ def build(case):
                 if all(lo[d] < g.nodes[d, i] < hi[d] for d in range(nd))]
     mode = case.get("perturb", "none")
     pert = case.get("pert", [])
+    if case.get("taper") and nd == 3:
+        # (x, y, z) -> (x (1 + z/8), y (1 + z/8), z): planes stay planes, boxes become frusta
+        # (planar faces, cells without central symmetry); dyadic coordinates stay dyadic
+        z0, z1 = float(lo[2]), float(hi[2])
+        s = 1.0 + g.nodes[2] / 8.0
+        g.nodes[0] *= s
+        g.nodes[1] *= s
+        prim = lambda z: (1.0 + z / 8.0) ** 3 * 8.0 / 3.0
+        measure = float(hi[0] - lo[0]) * float(hi[1] - lo[1]) * (prim(z1) - prim(z0))
     targets = interior if mode == "interior" else (list(range(g.num_nodes)) if mode == "all" else [])
     for j, i in enumerate(targets):
         for d in range(nd):
@@ -92,7 +101,8 @@ class C19(Prop):
                  "argument over balanced edge sets) + vm_compute execution correspondence in Q; "
                  "exact-fractions oracle for 1-3-D")
     rule = ("random grids: CartGrid / TensorGrid (dyadic spacings) in 1-3-D, StructuredTriangleGrid, "
-            "StructuredTetrahedralGrid; node perturbations by dyadic offsets (< 1/4 of the smallest "
+            "StructuredTetrahedralGrid; 3-D boxes tapered to frusta (planar faces, no central symmetry); "
+            "node perturbations by dyadic offsets (< 1/4 of the smallest "
             "spacing) of interior nodes (domain measure preserved) or of all nodes; 2-D stream with "
             "reversed node order on some faces (orientation check fails -> fallback); non-trivial = "
             "perturbed grid or grid with > 1 cell; distinct by (case, output)")
@@ -143,6 +153,10 @@ class C19(Prop):
             else:
                 case = {"kind": "tet", "dims": [rng.randint(1, 2), rng.randint(1, 2), rng.randint(1, 2)]}
             case["perturb"] = rng.choice(["none", "interior", "interior", "all"])
+            if case["kind"] != "tet" and len(case.get("dims", case.get("coords", []))) == 3 \
+                    and rng.random() < 0.6:
+                case["perturb"] = "none"
+                case["taper"] = True
             # smallest spacing is 1/2; offsets are multiples of 1/64 with |.| <= 7/64 < 1/8
             case["scale"] = 1.0 / 64
             case["pert"] = [rng.randint(-7, 7) for _ in range(24)]
